@@ -78,7 +78,7 @@ function wrap(t, ctx) {
 export function renderProps(props, index) {
   const parts = [];
   for (const p of props) {
-    const doc = p.doc ? renderDoc(p.doc).trimEnd() + " " : "";
+    const doc = p.doc ? (p.doc.kind === "line" ? renderDoc(p.doc) : renderDoc(p.doc).trimEnd() + " ") : "";
     parts.push(`${doc}${p.ro ? "readonly " : ""}${renderKey(p.name, p.quote)}${p.opt ? "?" : ""}: ${renderType(p.t)}`);
   }
   if (index) parts.push(`[${index.pname || "key"}: ${renderType(index.key)}]: ${renderType(index.val)}`);
